@@ -115,7 +115,7 @@ func peval(v ssa.Value, env PEnv, depth int) (constant.Value, bool) {
 			}
 			// an edge whose source block lies behind a branch decided the other way is infeasible too
 			// (looked up at most three dominators, for the boolean phis of && / || chains only)
-			if i < len(blk.Preds) && isBoolType(x.Type()) && depth < 6 {
+			if i < len(blk.Preds) && depth < 6 {
 				dead := false
 				cur := blk.Preds[i]
 				for lvl := 0; lvl < 3 && !dead; lvl++ {
